@@ -166,6 +166,9 @@ fn gen_c01(tier: &str, rng: &mut Rng) -> Vec<Case> {
     let depths: &[usize] = if thorough { &[1000, 10000, 30000, 100000] } else { &[500, 3000] };
     for &d in depths {
         for tag in ["div", "blockquote", "ul><li", "em", "table><tr><td", "span"] {
+            // nested blocks cost quadratic time (100000 nested <div>: about a minute): the deepest
+            // levels are for inline nesting, blocks stop at 10000
+            let d = if tag == "em" || tag == "span" { d } else { d.min(10000) };
             let open = format!("<{}>", tag).repeat(d);
             let html = format!("{}x", open);
             for &w in &[10usize, 80] {
